@@ -32,6 +32,11 @@ def summarize(start, calls):
     flags = [False, False]
     for c in calls:
         k = c[0]
+        if k == "retarget":
+            if table == c[1]:
+                table = c[2]
+            froms = [c[2] if f == c[1] else f for f in froms]
+            continue
         if k == "columns":
             items = c[1]
             if items and items[0][0] == "seq":
@@ -519,4 +524,64 @@ def nested_subquery_values():
             crit = ["basic", "gt", crit, I(1), None]
         out.append({"kind": "b", "cls": "SQLLiteQuery", "start": ["delete", "t"], "db": 1, "tag": "nested-subquery:where:%d" % k,
                     "calls": [["where", crit]], "spec": {"kind": "delete", "table": "t", "where": crit}})
+    return out
+
+
+# ---------------------------------------------------------------------------------------------
+# the table-factory spellings of the statement starters (Round 6)
+# ---------------------------------------------------------------------------------------------
+def starter_spellings():
+    """Q.Table('t').insert(...) / Table('t', query_cls=Q).insert(...) with every row form, and .update()"""
+    out = []
+    r1, r2, r3 = [["i", 401], ["s", "d"], ["i", 40]], [["i", 402], ["s", "it's"], ["n"]], [["i", 403], ["s", ""], ["b", True]]
+    forms = {
+        "flat": ([["v", x] for x in r1], [r1]),
+        "one-tuple": ([["seq", "tuple", r1]], [r1]),
+        "one-list": ([["seq", "list", r1]], [r1]),
+        "tuples": ([["seq", "tuple", r1], ["seq", "tuple", r2], ["seq", "tuple", r3]], [r1, r2, r3]),
+        "lists": ([["seq", "list", r1], ["seq", "list", r2]], [r1, r2]),
+        "mixed": ([["seq", "tuple", r1], ["seq", "list", r2]], [r1, r2]),
+    }
+    for via in ("factory", "query_cls"):
+        for cls in JUDGED:
+            for name, (args, rows) in forms.items():
+                for with_cols in (False, True):
+                    calls = [["insert", args]]
+                    rws = rows
+                    if with_cols:
+                        calls.append(["columns", [["s", "id"], ["s", "b"], ["s", "a"]]])
+                    else:
+                        rws = [r + [["n"], ["f", "1.5"]] for r in rows]
+                        calls = [["insert", [([a[0], a[1], a[2] + [["n"], ["f", "1.5"]]] if a[0] == "seq" else a) for a in args]
+                                  + ([["v", ["n"]], ["v", ["f", "1.5"]]] if args[0][0] == "v" else [])]]
+                    calls.append(["insert", [["seq", "tuple", [["i", 450]] + rws[0][1:]]]])      # chained after the starter
+                    case = {"kind": "b", "cls": cls, "start": ["into", "t"], "via": via, "calls": calls, "db": 1,
+                            "tag": "starter:%s:insert:%s" % (via, name)}
+                    case["spec"] = summarize(case["start"], calls)
+                    out.append(case)
+            w = ["basic", "gt", F("id"), I(2), None]
+            calls = [["set", ["s", "b"], ["s", "via"]], ["where", w]]
+            out.append({"kind": "b", "cls": cls, "start": ["update", "t"], "via": via, "calls": calls, "db": 1,
+                        "tag": "starter:%s:update" % via, "spec": summarize(["update", "t"], calls)})
+    return out
+
+
+def retargeted():
+    """a DML template re-targeted with replace_table(Table(old), Table(new)) — the Table passed equals the target but is a
+    different object (the target was given through another Table instance).  t and k share the columns a, b, c."""
+    out = []
+    w = ["basic", "gt", F("b"), I(0), None]
+    for cls in JUDGED:
+        for verb in ("insert", "replace") + (("ior",) if cls == "SQLLiteQuery" else ()):
+            calls = [["columns", [["s", "a"], ["s", "b"]]], [verb, [["seq", "tuple", [["s", "rt1"], ["i", 1]]], ["seq", "tuple", [["s", "abc"], ["i", 2]]]]],
+                     ["retarget", "t", "k"]]
+            out.append({"kind": "b", "cls": cls, "start": ["into", "t"], "calls": calls, "db": 2, "tag": "retarget:" + verb})
+        calls = [["set", ["s", "c"], ["s", "moved"]], ["where", w], ["retarget", "t", "k"]]
+        out.append({"kind": "b", "cls": cls, "start": ["update", "t"], "calls": calls, "db": 2, "tag": "retarget:update"})
+        calls = [["where", w], ["retarget", "t", "k"]]
+        out.append({"kind": "b", "cls": cls, "start": ["delete", "t"], "calls": calls, "db": 2, "tag": "retarget:delete"})
+        calls = [["columns", [["s", "a"]]], ["fromselect", "u", [F("x")]], ["retarget", "t", "k"]]
+        out.append({"kind": "b", "cls": cls, "start": ["into", "t"], "calls": calls, "db": 2, "tag": "retarget:insert-select"})
+    for c in out:
+        c["spec"] = summarize(c["start"], c["calls"])
     return out
